@@ -946,8 +946,10 @@ def mini_exec(fn: ast.FunctionDef, args: Dict[str, object], budget: int = 2000, 
             if isinstance(base, SampleObj):
                 if e.attr not in base:
                     if classes and base.get("__kind__") in classes and isinstance(classes[base["__kind__"]].get(e.attr), ast.FunctionDef):
-                        m3_ = classes[base["__kind__"]][e.attr]           # a method taken as a value
-                        return lambda *a_, **k_: invoke(m3_, base, list(a_), dict(k_))
+                        m3_ = classes[base["__kind__"]][e.attr]
+                        if any(unparse(d_) in ("property", "cached_property", "functools.cached_property") for d_ in m3_.decorator_list):
+                            return invoke(m3_, base, [], {})           # a property: reading it runs it
+                        return lambda *a_, **k_: invoke(m3_, base, list(a_), dict(k_))       # a method taken as a value
                     if base.get("__complete__"):
                         # the sample carries every attribute an object of its class has: a missing one is Python's AttributeError
                         raise _Raised(f"AttributeError: '{base.get('__kind__')}' object has no attribute '{e.attr}'")
@@ -1093,6 +1095,9 @@ def mini_exec(fn: ast.FunctionDef, args: Dict[str, object], budget: int = 2000, 
                 return l_ % r_
             except (TypeError, ZeroDivisionError):
                 raise _PathEval.Unknown("modulo on these samples")
+        if isinstance(e, ast.Call) and unparse(e.func) in ("warnings.warn", "print", "logging.warning", "logging.info", "logging.debug", "logging.error") \
+                and not (isinstance(e.func, ast.Name) and e.func.id in env):
+            return None                               # reporting: nothing the result depends on
         if isinstance(e, ast.Call) and unparse(e.func) in ("Path", "pathlib.Path", "PurePath", "pathlib.PurePath", "PurePosixPath") and len(e.args) >= 1 \
                 and not (isinstance(e.func, ast.Name) and e.func.id in env):
             import pathlib as _pl
